@@ -204,6 +204,38 @@ def coverage_world(seed, kinds, annotated=False):
                 r = w.make_read("chr1", [(ex4[0][0] + 30, ex4[0][1]), (ex4[1][0], ex4[1][1] - 30)], mapq=q, truth={"cluster": len(clusters), "kind": kind})
                 names.append(r.name)
             end = ex4[-1][1]
+        elif kind == "mapq_grid":
+            # reads of known kind at every MAPQ around the two documented cut-offs (--inconsistent_mapq_cutoff, default 5, for genic alignments
+            # that are not consistent with any isoform; --simple_alignments_mapq_cutoff, default 1, for 1-2-exon alignments outside genes)
+            from vlib.world import Gene, Transcript
+            strand = rng.choice("+-")
+            a_ = [(start, start + 300), (start + 1000, start + 1200), (start + 2600, start + 2900), (start + 3600, start + 4000)]
+            gm = Gene("GM%d" % len(clusters), "chr1", strand)
+            gm.transcripts.append(Transcript(gm.id + ".t1", gm.id, "chr1", strand, list(a_), True, "mapq-grid"))
+            gm.transcripts.append(Transcript(gm.id + ".t2", gm.id, "chr1", strand, [a_[0], a_[1], a_[3]], True, "mapq-grid"))
+            nov = (start + 1700, start + 1850)
+            for intr in gm.transcripts[0].introns + gm.transcripts[1].introns + [(a_[1][1] + 1, nov[0] - 1), (nov[1] + 1, a_[2][0] - 1), (a_[0][1] + 1, a_[3][0] - 1)]:
+                w.plant_sites("chr1", intr, strand)
+            w.genes.append(gm)
+            for q in (0, 1, 2, 3, 4, 5, 6, 60):
+                for k in range(2):
+                    for rule, ex in (("consistent", [(a_[0][0] + 4 * k, a_[0][1]), a_[1], a_[2], (a_[3][0], a_[3][1] - 6 * k)]),
+                                     ("inconsistent", [(a_[0][0] + 4 * k, a_[0][1]), a_[1], nov, a_[2], (a_[3][0], a_[3][1] - 6 * k)]),
+                                     ("inconsistent", [(a_[0][0] + 4 * k, a_[0][1]), (a_[3][0], a_[3][1] - 6 * k)]),
+                                     ("inconsistent", [(start + 2000 + 5 * k, start + 2350)])):        # unspliced, inside an intron of every isoform
+                        r = w.make_read("chr1", ex, mapq=q, truth={"cluster": len(clusters), "kind": kind, "mapq_rule": rule, "n_exons": len(ex)})
+                        names.append(r.name)
+            ig = start + 9000                                # gene-free locus
+            ex3 = [(ig, ig + 300), (ig + 700, ig + 950), (ig + 1400, ig + 1700)]
+            for i_ in range(2):
+                w.plant_sites("chr1", (ex3[i_][1] + 1, ex3[i_ + 1][0] - 1), "+")
+            for q in (0, 1, 2, 3, 60):
+                for k in range(2):
+                    for ex in ([(ex3[0][0] + 20 + k, ex3[0][1] - 20)], [(ex3[0][0] + 30 + k, ex3[0][1]), (ex3[1][0], ex3[1][1] - 30)],
+                               [(ex3[0][0] + 7 * k, ex3[0][1]), ex3[1], (ex3[2][0], ex3[2][1] - 5 * k)]):
+                        r = w.make_read("chr1", ex, mapq=q, truth={"cluster": len(clusters), "kind": kind, "mapq_rule": "outside-genes", "n_exons": len(ex)})
+                        names.append(r.name)
+            end = ex3[-1][1]
         elif kind == "small":
             for _ in range(rng.randint(5, 40)):
                 s = start + rng.randint(0, 2000)
@@ -227,7 +259,7 @@ def coverage_world(seed, kinds, annotated=False):
     if annotated:
         # a few genes under the clusters so that reads are processed by the genic branch
         for ci, c in enumerate(clusters):
-            if ci % 2 == 0 and c["end"] - c["start"] > 1500:
+            if ci % 2 == 0 and c["end"] - c["start"] > 1500 and c["kind"] != "mapq_grid":
                 g, _ = w.make_gene("G%d" % ci, "chr1", c["start"] + 50, "+", n_exons=3, n_iso=1, exon_len=(150, 250),
                                    intron_len=(200, 300))
                 genes_under.append(g.id)
@@ -285,7 +317,8 @@ def _collect_worker(job):
     return res
 
 
-def expected_reads(w, reads=None):
+def expected_reads(w, reads=None, cut=None):
+    """cut = (annotated, inconsistent cut-off, simple-alignment cut-off): applies to the reads of the 'mapq_grid' loci, whose kind is known."""
     exp = Counter()
     cats = Counter()
     for r in (w.reads if reads is None else reads):
@@ -299,13 +332,21 @@ def expected_reads(w, reads=None):
             cats["secondary"] += 1
         else:
             cats["primary"] += 1
+        rule = r.truth.get("mapq_rule")
+        if rule and cut:
+            annotated, inc, simple = cut
+            if not annotated or rule == "outside-genes":
+                if r.truth["n_exons"] <= 2 and r.mapq < simple:
+                    continue
+            elif rule == "inconsistent" and r.mapq < inc:
+                continue
         exp[r.name] += 1
     return exp, cats
 
 
-def judge(chk, desc, wit, w, clusters, reported_ids, kind_key):
+def judge(chk, desc, wit, w, clusters, reported_ids, kind_key, cut=None):
     """reported_ids: Counter of read ids (distinct records per id)."""
-    exp, cats = expected_reads(w)
+    exp, cats = expected_reads(w, cut=cut)
     missing = [n for n in exp if n not in reported_ids]
     extra = [n for n in reported_ids if n not in exp]
     cl_of = {}
@@ -328,7 +369,7 @@ def run(chk, scratch):
     thorough = chk.tier == "thorough"
     chk.rule = ("generated coverage profiles: >=1024-read pile-ups inside one and two 256-bp bins, dense blocks separated by thin valleys at random "
                 "offsets relative to the bins, a valley followed by short reads lying only in the last bin, >32 kb sparse clusters, spliced reads bridging "
-                "blocks, a gene over a coverage-1 stretch whose only bridging read also has a secondary alignment elsewhere, spliced reads that leave a two-isoform gene and name no isoform at all, small clusters; supplementary and unmapped records as labelled filtered categories; x {BAM storage, in-memory storage} x "
+                "blocks, a gene over a coverage-1 stretch whose only bridging read also has a secondary alignment elsewhere, spliced reads that leave a two-isoform gene and name no isoform at all, small clusters; genic reads of known kind (consistent, extra exon, two skipped exons, intronic) and gene-free 1/2/3-exon reads at MAPQ 0-6 with both MAPQ cut-offs at their defaults and set explicitly (0/0, 3/2, ...); supplementary and unmapped records as labelled filtered categories; x {BAM storage, in-memory storage} x "
                 "{annotation-free, annotated}; in-process collector + CLI runs. non-trivial = distinct (cluster kind, #regions returned, storage, annotated) "
                 "tuples where the cluster was split into >=2 regions or fell into the single-bin case")
     n_inproc = 40 if thorough else 6
@@ -450,6 +491,43 @@ def run(chk, scratch):
                 chk.violation("log-statistics:" + cat, "%s: log says %s: %d, the BAM has %d" % (desc, name, got, cats.get(cat, 0)), wit)
         if chk.violations and not getattr(chk, "witness_files", None):
             chk.witness_files = [os.path.join(d, f) for f in ("g.fa", "a.gtf", "r.bam", "r.bam.bai")]
+    # the two MAPQ cut-offs at their defaults and set explicitly (0 = keep everything), with and without an annotation
+    def cutoffs(job):
+        i, annotated, inc, simple, hm = job
+        seed = chk.seed * 1000 + 900 + i % 2
+        d = os.path.join(scratch, "cut%d" % i)
+        w, clusters = coverage_world(seed, ["mapq_grid", "small", "mapq_grid"], annotated=annotated)
+        pipeline.write_world(w, d)
+        extra = (["--high_memory"] if hm else []) + (["--inconsistent_mapq_cutoff", str(inc)] if inc is not None else []) + \
+                (["--simple_alignments_mapq_cutoff", str(simple)] if simple is not None else [])
+        r = pipeline.run(d, os.path.join(d, "out"), threads=1 + i % 2, annotated=annotated, extra=extra + ["--no_model_construction"])
+        return job, d, w, clusters, seed, extra, r
+    cjobs = [(0, True, None, None, False), (1, True, 0, 0, False), (2, True, 3, 2, True), (3, False, None, 0, False)]
+    if thorough:
+        cjobs += [(4, True, 0, 0, True), (5, False, None, 2, True), (6, False, None, None, False), (7, True, 0, 3, False), (8, True, 7, 0, True)]
+    grid_reads = 0
+    for job, d, w, clusters, seed, extra, r in runner.parallel(cutoffs, cjobs, workers=4):
+        i, annotated, inc, simple, hm = job
+        desc = "CLI run, MAPQ grid world %d, annotated=%s %s" % (seed, annotated, " ".join(extra))
+        wit = {"world_seed": seed, "kinds": [c["kind"] for c in clusters], "annotated": annotated, "extra": extra}
+        if r["rc"] is None:
+            chk.inconclusive.append("watchdog expired: " + desc)
+            continue
+        if r["rc"] != 0:
+            chk.violation("run-failed", "%s: %s" % (desc, pipeline.fail_text(r)), wit)
+            continue
+        cut = (annotated, 5 if inc is None else inc, 1 if simple is None else simple)
+        o = pipeline.Outputs(os.path.join(d, "out"))
+        key = "mapq-cutoffs:%s:%s" % ("annotated" if annotated else "annotation-free", "defaults" if inc is None and simple is None else "explicit")
+        n = judge(chk, desc + " [corrected_reads.bed]", wit, w, clusters, Counter(b.name for b in o.bed()), key + ":bed", cut=cut)
+        chk.note(n=n)
+        grid_reads += sum(1 for r_ in w.reads if r_.truth.get("mapq_rule"))
+        chk.nontrivial.add(("mapq-cutoffs", annotated, inc, simple, hm))
+        if annotated:
+            judge(chk, desc + " [read_assignments.tsv]", wit, w, clusters, Counter(a.read_id for a in o.assignments()), key + ":tsv", cut=cut)
+        if chk.violations and not getattr(chk, "witness_files", None):
+            chk.witness_files = [os.path.join(d, f) for f in ("g.fa", "a.gtf", "r.bam", "r.bam.bai")]
+    chk.extra["reads_of_known_kind_at_graded_mapq_judged"] = grid_reads
     # one run over several experiments: every experiment's statistics and outputs are about its own files only
     def multi(i):
         seed = chk.seed * 1000 + 800 + i
